@@ -42,6 +42,8 @@ struct Cfg {
     rvb: bool,
     heatbath: bool,
     seed: u64,
+    /// explicit initial spin state (None = drawn from the sampler's RNG)
+    init_state: Option<Vec<bool>>,
 }
 
 impl Cfg {
@@ -70,7 +72,7 @@ impl Cfg {
             self.longitudinal,
             self.cutoff,
             SplitMix64::new(self.seed),
-            None,
+            self.init_state.clone(),
         );
         if self.rvb {
             g.set_run_rvb(true);
@@ -149,6 +151,7 @@ fn gen_cfg(gen: &mut SplitMix64, i: usize, thorough: bool) -> Cfg {
         rvb,
         heatbath,
         seed: gen.next(),
+        init_state: None,
     }
 }
 
@@ -456,6 +459,48 @@ fn lockstep_nd(kind: usize, transverse: f64, beta: f64, seed: u64, k: usize, m: 
         (None, Some(p)) => Err(format!("{} [trajectories still equal for {} steps after the snapshot at k={}]", p, m, k)),
         (Some(d), Some(p)) => Err(format!("{} || cause: {}", d, p)),
     }
+}
+
+
+// ------------------------------------------------------------------------------------------------
+// scale / regime cases: 33..130 spins with up spins at word boundaries, a hub with 300 leaves, a complete graph
+// ------------------------------------------------------------------------------------------------
+fn state_pattern(n: usize, which: usize, gen: &mut SplitMix64) -> (String, Vec<bool>) {
+    match which {
+        0 => ("up31,32,63,64".into(), (0..n).map(|i| [31usize, 32, 63, 64].contains(&i)).collect()),
+        1 => ("allup".into(), vec![true; n]),
+        2 => ("up-last".into(), (0..n).map(|i| i + 1 == n || i == 31 || i % 64 == 63).collect()),
+        _ => ("random".into(), (0..n).map(|_| gen.coin()).collect()),
+    }
+}
+
+fn big_cfg(kind: &str, n: usize, which: usize, gen: &mut SplitMix64) -> (String, Cfg) {
+    let edges: Vec<((usize, usize), f64)> = match kind {
+        "hub" => (1..n).map(|i| ((0, i), if i % 2 == 0 { 1.0 } else { -1.0 })).collect(),
+        "complete" => {
+            let mut e = vec![];
+            for a in 0..n {
+                for b in a + 1..n {
+                    e.push(((a, b), if (a + b) % 3 == 0 { -0.5 } else { 0.5 }));
+                }
+            }
+            e
+        }
+        _ => (0..n).map(|i| ((i, (i + 1) % n), if i % 5 == 0 { -1.0 } else { 1.0 })).collect(), // ring
+    };
+    let (pname, st) = state_pattern(n, which, gen);
+    let cfg = Cfg {
+        edges,
+        transverse: 0.5,
+        longitudinal: 0.0,
+        beta: 0.5,
+        cutoff: 4,
+        rvb: kind != "ring" || which % 2 == 0,
+        heatbath: kind == "ring" && which == 1,
+        seed: gen.next(),
+        init_state: Some(st),
+    };
+    (format!("{} n={} state={}", kind, n, pname), cfg)
 }
 
 // ------------------------------------------------------------------------------------------------
@@ -951,6 +996,7 @@ fn keys_mode() {
         rvb: true,
         heatbath: true,
         seed: 11,
+        init_state: None,
     };
     let mut g = cfg.build();
     run_steps(&mut g, 10, cfg.beta);
@@ -1194,4 +1240,48 @@ fn main() {
     }
     stat("prepared.configs", nprep);
     stat("prepared.ising_snapshots_holding_offdiagonal_ops", prep_offdiag_at_snapshot);
+
+    // scale / regime: 33..130 spins (word-boundary state patterns), hub with 300 leaves + rvb, complete graph on 40 spins
+    let sizes: Vec<(&str, usize)> = if a.thorough {
+        vec![("ring", 33), ("ring", 64), ("ring", 65), ("ring", 100), ("ring", 130), ("hub", 301), ("complete", 40)]
+    } else {
+        vec![("ring", 33), ("ring", 65), ("ring", 130), ("hub", 301), ("complete", 40)]
+    };
+    let mut big_cases = 0u64;
+    for (kind, n) in sizes {
+        for which in 0..4usize {
+            if kind != "ring" && which >= 2 && !a.thorough {
+                continue;
+            }
+            let (name, cfg) = big_cfg(kind, n, which, &mut gen);
+            let (kb, mb) = if kind == "ring" { (2usize, 3usize) } else { (1, 2) };
+            for k in 0..=kb {
+                let r = catch(|| lockstep_ising(&cfg, k, mb));
+                let (nt, verdict) = match r {
+                    Ok(Ok(s)) => (s.nontrivial || k == 0, Ok(())),
+                    Ok(Err(e)) => (true, Err(e)),
+                    Err(p) => (true, Err(format!("panic: {}", p))),
+                };
+                big_cases += 1;
+                let out = if verdict.is_ok() { "same" } else { "diff" };
+                emit(nt, &format!("big-ising {} seed={} rvb={} hb={} k={} m={}", name, cfg.seed, cfg.rvb as u8, cfg.heatbath as u8, k, mb), out, Some(verdict));
+            }
+            // the same replicas inside a tempering container (both container forms)
+            if kind == "ring" {
+                let tcfg = TCfg { base: cfg.clone(), replicas: vec![(0.5, 1.0, 1.0), (1.0, 1.0, 1.0), (0.25, 1.0, 1.0)], seed: gen.next() };
+                for k in 0..=1usize {
+                    let r = catch(|| lockstep_temper(&tcfg, k, 3));
+                    let (nt, verdict) = match r {
+                        Ok(Ok((nt, _, _))) => (nt || k == 0, Ok(())),
+                        Ok(Err(e)) => (true, Err(e)),
+                        Err(p) => (true, Err(format!("panic: {}", p))),
+                    };
+                    big_cases += 1;
+                    let out = if verdict.is_ok() { "same" } else { "diff" };
+                    emit(nt, &format!("big-temper {} seed={} cseed={} k={} m=3", name, cfg.seed, tcfg.seed, k), out, Some(verdict));
+                }
+            }
+        }
+    }
+    stat("big.cases", big_cases);
 }
